@@ -75,3 +75,18 @@ Section Rows.
   Definition appends (f : bytes) (batches : list (list bytes)) : option bytes :=
     fold_left (fun of rgs => match of with Some f => append_rgs f rgs | None => None end) batches (Some f).
 End Rows.
+
+(* ---- the validated relation of the single-file append (DESIGN 4.2) ---------------------------
+   What C07 needs of the bytes the real append leaves, whatever else the writer does (padding, chunking
+   of its writes, where exactly the new row groups start):  the old footer is found at loc, everything
+   below loc is unchanged, and the new file again ends in a footer found at or after loc.
+   `check_append_rel` is evaluated on (bytes before, bytes after) of every real append.           *)
+Definition check_append_rel (before after : bytes) : bool :=
+  match footer_loc false before, footer_loc false after with
+  | Some loc, Some loc' => bytes_eqb (firstn loc after) (firstn loc before) && Nat.leb loc loc'
+  | _, _ => false
+  end.
+
+Definition append_rel (before after : bytes) : Prop :=
+  exists loc loc', footer_loc false before = Some loc /\ footer_loc false after = Some loc'
+    /\ (loc <= loc')%nat /\ firstn loc after = firstn loc before.
